@@ -9,12 +9,17 @@
    Factored out of Proof/X86SimRel.v, X86SimStmt.v, X86SimProg.v, X86SimClo.v, X86SimProgC.v, X86SimTopC.v. *)
 From Coq Require Import List ZArith NArith String Ascii Bool Lia.
 From SCC Require Import Base.Sexp Lang.AxSyn Sem.AxSem Model.Backend Model.Linearize Model.LinCheck Proof.LinBasics.
+From SCC Require Sem.X86Wf.
 Import ListNotations.
 Open Scope Z_scope.
 Open Scope list_scope.
 
 (* ---------- labels that start with '#' (statement-boundary marks) ---------- *)
-Definition hash_name (l : string) : bool := match l with String "#"%char _ => true | _ => false end.
+(* the test `match l with String "#" _ => true | _ => false end`; the three assembler-level checkers
+   (Sem/X86Wf.v, A64Wf.v, RVWf.v) each define it under the name is_hash_label; the x86 one is taken here so that
+   the x86-64 development, which states its label hypotheses with it, sees no other name (the others are
+   convertible to it) *)
+Notation hash_name := SCC.Sem.X86Wf.is_hash_label (only parsing).
 Lemma hash_name_app_ s : hash_name (s +++ "_") = true -> hash_name s = true.
 Proof. destruct s as [|c s]; cbn; auto. Qed.
 Lemma hash_name_sub f y : hash_name f = false -> hash_name (f +++ "_" +++ y) = false.
